@@ -124,6 +124,8 @@ Proof.
   - intros _. apply tnav_query; [exact Hw|]. intros nd0; destruct nd0; reflexivity.
   - intros _. apply tnav_query; [exact Hw|]. intros nd0; destruct nd0; reflexivity.
   - apply t_fd_err_unchanged. exact Hw.
+  - intros _. reflexivity.
+  - intros _. reflexivity.
 Qed.
 
 (** queries never change the tree *)
